@@ -31,6 +31,8 @@ EXPLANATION = (
     "R-C18-3: TS = TN^(1/(-slope)) in the analysers agrees in normal form with the Woehler accessor's TS = TN^(1/k_1) for "
     "k_1 = -slope, and k_1 is reported as -slope. Not decided: scale equivariance through the optimisers, exact recovery of "
     "synthetic curves, likelihood ordering.")
+EXPLANATION += (' R-C18-7: the endurance-limit likelihood reads only the infinite zone of the fatigue data.')
+EXPLANATION += (' R-C18-6: no load or cycle quantity is compared with a non-zero constant in the analysis modules (unit dependence; built-in positive example).')
 EXPLANATION += (' R-C18-2 also requires the reported transition to be the midpoint of the lowest finite-zone load and the highest run-out load. R-C18-4 (applied to the load unit and, likewise, to the cycle unit: cycles, ND): values that carry the unit of the load (load column, finite/infinite transition, SD, ...; interprocedural typing) meet numeric constants only as comparisons with zero - a non-zero threshold or clamp makes the result depend on the load unit. R-C18-5: no analysis function writes into a caller-provided argument and no mutable default argument is ever written (effect analysis through closures).')
 EXPLANATION += (" R-C18-4 also treats rounding of a load- or cycle-typed value to a fixed number of digits or to whole numbers (round, np.round, floor, astype(int)) as a comparison with a fixed grid. R-C18-2 inlines the locals of the zone split and reports a zone selected by index labels (index.isin, drop, difference) instead of by the load of each test.")
 ASSUMPTIONS = [
@@ -47,6 +49,83 @@ def run(ctx):
     ctx.attempt(_r3)
     ctx.attempt(_r4)
     ctx.attempt(_r5)
+    ctx.attempt(_r6)
+    ctx.attempt(_r7)
+
+
+def _r7(ctx):
+    """R-C18-7: the endurance-limit likelihood is taken over the tests of the infinite zone and nothing else: every row set
+    `likelihood_infinite` takes from the fatigue data is the infinite zone (fractures and run-outs of that zone).  Run-outs that
+    lie in no zone (below a manually set transition there are none, above it they belong to neither zone) must not enter."""
+    prog = ctx.prog
+    ctx.rule("R-C18-7", floor=1, what="likelihood_infinite reads only the infinite zone of the fatigue data")
+    from ..inline import inlined
+    f0 = prog.func(PKG + "likelihood:Likelihood.likelihood_infinite")
+    f = inlined(prog, f0)
+    reads = {}
+    for n_ in ast.walk(f.node):
+        if isinstance(n_, ast.Attribute) and is_self_attr(n_.value, "_fd"):
+            reads.setdefault(n_.attr, n_)
+    if "infinite_zone" not in reads:
+        raise AnalysisError("likelihood_infinite: no read of the infinite zone found")
+    other = sorted(a_ for a_ in reads if a_ not in ("infinite_zone",))
+    if other:
+        ctx.violated(f0, reads[other[0]], "likelihood_infinite also takes self._fd.%s: tests outside the infinite zone enter the "
+                     "endurance-limit likelihood, the estimate is no longer the maximum over the zone the analysis reports"
+                     % ", self._fd.".join(other), text="likelihood_infinite reads " + other[0])
+    else:
+        ctx.holds(f0, reads["infinite_zone"], "likelihood_infinite reads only self._fd.infinite_zone")
+
+
+def _dimensional_thresholds(fn_node):
+    """comparisons of a load / cycle quantity with a non-zero numeric literal (a count - len(), .shape[k], num_*, .nunique() - is
+    not a quantity)"""
+    def count_like(e):
+        if isinstance(e, ast.Call) and (call_name(e) in ("len", "int") or (isinstance(e.func, ast.Attribute) and
+                                                                         e.func.attr in ("count", "nunique", "sum") and False)):
+            return True
+        if isinstance(e, ast.Call) and isinstance(e.func, ast.Attribute) and e.func.attr in ("count", "nunique"):
+            return True
+        if isinstance(e, ast.Subscript) and isinstance(e.value, ast.Attribute) and e.value.attr == "shape":
+            return True
+        if isinstance(e, ast.Attribute) and (e.attr.startswith("num_") or e.attr.startswith("n_") or e.attr in ("size", "ndim")):
+            return True
+        return False
+    out = []
+    for n_ in ast.walk(fn_node):
+        if isinstance(n_, ast.Compare) and len(n_.ops) == 1 and isinstance(n_.ops[0], (ast.Lt, ast.LtE, ast.Gt, ast.GtE)):
+            for lit, other in ((n_.left, n_.comparators[0]), (n_.comparators[0], n_.left)):
+                c = const_value(lit)
+                if isinstance(c, (int, float)) and not isinstance(c, bool) and c != 0 and not count_like(other):
+                    t = norm_text(other).lower()
+                    if ("cycle" in t or "load" in t) and "probab" not in t:
+                        out.append(n_)
+    return out
+
+
+def _r6(ctx):
+    """R-C18-6: the analysis has no threshold with a physical dimension: a load or cycle quantity is never compared with a
+    non-zero constant.  The estimates are equivariant under a change of the load / cycle unit (cycles given in millions) only if
+    every decision depends on ratios, orderings and exact equality of the data."""
+    prog = ctx.prog
+    ctx.rule("R-C18-6", floor=1, what="no comparison of a load or cycle quantity with a non-zero constant (unit dependence)")
+    ex = ast.parse("def f(self, c):\n    if c.max() - c.min() < 1.0:\n        pass\n    if len(self._fd.load.unique()) < 2:\n        pass\n"
+                   "    if finite_cycles.max() == finite_cycles.min():\n        pass\n"
+                   "    if finite_fractures_cycles.max() - finite_fractures_cycles.min() < 1.0:\n        pass\n").body[0]
+    if len(_dimensional_thresholds(ex)) != 1:
+        raise AnalysisError("R-C18-6 built-in example not matched")
+    n = 0
+    for key, fi in sorted(prog.functions.items()):
+        if not fi.module.name.startswith(PKG.rstrip(".")) or fi.parent is not None:
+            continue
+        n += 1
+        for c in _dimensional_thresholds(fi.node):
+            ctx.violated(fi, c, "%s compares a load / cycle quantity with a constant (%s): the decision changes when the data are "
+                         "given in another unit (cycles in millions, loads in kN), so the estimates are not equivariant under "
+                         "scaling" % (fi.name, norm_text(c)[:90]), text="dimensional threshold " + fi.name)
+    if n < 10:
+        raise AnalysisError("fewer than 10 analysis functions scanned")
+    ctx.holds(PKG.rstrip("."), None, "no dimensional threshold in %d analysis functions" % n)
 
 
 LOAD_ATTRS = ("load", "finite_infinite_transition", "fatigue_limit", "fractured_loads", "mixed_loads", "runout_loads",
